@@ -43,4 +43,5 @@ def main(tier):
     chk.run("R-ELEMSIZE", V.elemsize, cx.repo, cx.schema, cx.sites, floor=4)
     chk.run("R-NULLORDER", V.nullorder, cx.repo, floor=8)
     chk.run("R-BITSFIELD", V.bitsfield, cx.repo, floor=2)
+    chk.run("R-NEGLOC", V.negloc, cx.repo, cx.schema, cx.sites, floor=2)
     return chk.finish()
